@@ -129,6 +129,9 @@ def evaluate(host, probes, workdir, externs=("gc_arena",)):
         list(ex.map(one, probes))
 
 
+SYNTAX_ERRORS = ("unknown start of token", "expected one of", "unclosed delimiter", "unexpected closing delimiter", "expected expression", "expected identifier", "expected item", "unterminated", "mismatched closing delimiter", "expected `;`", "expected pattern")
+
+
 def judge(prop, probes, known):
     """Returns (violations, machinery, known_lines)."""
     viol, mach, klines = [], [], []
@@ -153,6 +156,9 @@ def judge(prop, probes, known):
                 viol.append((p, f"program that must be rejected compiles (ran: exit {p.exit}; {p.output.strip()[-200:]})"))
             elif p.first_error.startswith("ICE"):
                 mach.append(f"{p.id}: {p.first_error}")
+            elif not p.codes and any(t in p.first_error for t in SYNTAX_ERRORS):
+                # rejected because the generated text is not even Rust: the probe says nothing
+                mach.append(f"{p.id}: negative probe is rejected for a syntax error of the generator: {p.first_error}")
         elif p.expect == "reject_or_run":
             if p.accepted and p.exit != 0:
                 viol.append((p, f"accepted program violates the oracle: exit {p.exit}: {p.output.strip()[-300:]}"))
